@@ -112,3 +112,237 @@ Proof.
         by (rewrite <- app_assoc; reflexivity).
       apply trim_prefix_app.
 Qed.
+
+(** ** filepath.Clean and the strip prefix on a well-formed request "/c1/.../ck/" *)
+
+Definition noslash (c : list Z) : bool := forallb (fun x => negb (x =? slash)) c.
+Definition good_comp (c : list Z) : bool := noslash c && valid_elem c.
+
+Lemma split_noslash c : forall s cur, noslash c = true ->
+  split_slash (c ++ s) cur = split_slash s (rev c ++ cur).
+Proof.
+  induction c as [|x c IH]; intros s cur Hn; [reflexivity|].
+  cbn [noslash forallb] in Hn. apply andb_true_iff in Hn. destruct Hn as [Hx Hc].
+  apply negb_true_iff in Hx. cbn [app split_slash]. rewrite Hx.
+  rewrite IH by exact Hc. cbn [rev]. rewrite <- app_assoc. reflexivity.
+Qed.
+
+Lemma split_render_slash : forall p, p <> [] -> Forall (fun c => noslash c = true) p ->
+  split_slash (render_from p ++ [slash]) [] = p ++ [[]].
+Proof.
+  induction p as [|c r IH]; intros Hne Hall; [congruence|].
+  inversion Hall as [|? ? Hc Hr]; subst.
+  destruct r as [|c' r'].
+  - cbn [render_from]. rewrite split_noslash by exact Hc. cbn [split_slash].
+    rewrite Z.eqb_refl. rewrite app_nil_r, rev_involutive. reflexivity.
+  - change (render_from (c :: c' :: r')) with (c ++ [47] ++ render_from (c' :: r')).
+    rewrite <- !app_assoc. rewrite split_noslash by exact Hc.
+    cbn [app split_slash]. change (47 =? slash) with true. cbn iota.
+    rewrite app_nil_r, rev_involutive. rewrite IH by (discriminate || assumption). reflexivity.
+Qed.
+
+Lemma split_render : forall p, p <> [] -> Forall (fun c => noslash c = true) p ->
+  split_slash (render_from p) [] = p.
+Proof.
+  induction p as [|c r IH]; intros Hne Hall; [congruence|].
+  inversion Hall as [|? ? Hc Hr]; subst.
+  destruct r as [|c' r'].
+  - cbn [render_from]. rewrite <- (app_nil_r c) at 1. rewrite split_noslash by exact Hc.
+    cbn [split_slash]. rewrite app_nil_r, rev_involutive. reflexivity.
+  - change (render_from (c :: c' :: r')) with (c ++ [47] ++ render_from (c' :: r')).
+    rewrite split_noslash by exact Hc.
+    cbn [app split_slash]. change (47 =? slash) with true. cbn iota.
+    rewrite app_nil_r, rev_involutive. rewrite IH by (discriminate || assumption). reflexivity.
+Qed.
+
+Lemma clean_good rooted p : forall rest stack, Forall (fun c => valid_elem c = true) p ->
+  clean_comps rooted (p ++ rest) stack = clean_comps rooted rest (rev p ++ stack).
+Proof.
+  induction p as [|c r IH]; intros rest stack Hall; [reflexivity|].
+  inversion Hall as [|? ? Hc Hr]; subst.
+  unfold valid_elem in Hc. apply andb_true_iff in Hc. destruct Hc as [Hc H3].
+  apply andb_true_iff in Hc. destruct Hc as [H1 H2].
+  apply negb_true_iff in H1. apply negb_true_iff in H2. apply negb_true_iff in H3.
+  cbn [app clean_comps]. rewrite H1, H2, H3. cbn [orb].
+  rewrite IH by exact Hr. cbn [rev]. rewrite <- app_assoc. reflexivity.
+Qed.
+
+Lemma good_split p : Forall (fun c => good_comp c = true) p ->
+  Forall (fun c => noslash c = true) p /\ Forall (fun c => valid_elem c = true) p.
+Proof.
+  induction 1 as [|c r Hc _ [IH1 IH2]]; [split; constructor|].
+  unfold good_comp in Hc. apply andb_true_iff in Hc. destruct Hc. split; constructor; assumption.
+Qed.
+
+Lemma render_from_nonempty p : p <> [] -> Forall (fun c => valid_elem c = true) p -> render_from p <> [].
+Proof.
+  destruct p as [|c r]; [congruence|]. intros _ Hall. inversion Hall as [|? ? Hc _]; subst.
+  assert (c <> []).
+  { intros ->. unfold valid_elem in Hc. cbn in Hc. discriminate. }
+  destruct r; cbn [render_from]; destruct c; cbn; congruence.
+Qed.
+
+Lemma render_from_not_dot p : p <> [] -> Forall (fun c => good_comp c = true) p -> list_eqb (render_from p) [dot] = false.
+Proof.
+  intros Hne Hall. destruct (list_eqb (render_from p) [dot]) eqn:E; [|reflexivity]. exfalso.
+  apply list_eqb_eq in E. destruct (good_split p Hall) as [Hns Hv].
+  pose proof (split_render p Hne Hns) as Hs. rewrite E in Hs. cbn in Hs.
+  subst p. inversion Hv as [|? ? Hc _]; subst. unfold valid_elem in Hc. cbn in Hc. discriminate.
+Qed.
+
+Section WellFormedRequest.
+  Variable p0 : path.
+  Hypothesis Hne : p0 <> [].
+  Hypothesis Hgood : Forall (fun c => good_comp c = true) p0.
+  Let req := slash :: render_from p0 ++ [slash].
+
+  Lemma wf_split : split_slash req [] = [] :: p0 ++ [[]].
+  Proof.
+    unfold req. cbn [split_slash]. rewrite Z.eqb_refl. cbn [rev].
+    destruct (good_split p0 Hgood) as [Hns _]. now rewrite split_render_slash.
+  Qed.
+
+  Lemma wf_path_clean : path_clean req = slash :: render_from p0.
+  Proof.
+    unfold path_clean. unfold req at 1. rewrite Z.eqb_refl. cbv zeta. rewrite wf_split.
+    cbn [clean_comps list_eqb orb]. destruct (good_split p0 Hgood) as [_ Hv].
+    rewrite clean_good by exact Hv. cbn [clean_comps list_eqb orb]. rewrite app_nil_r, rev_involutive.
+    reflexivity.
+  Qed.
+
+  Lemma join_is_render : forall p, join_slash p = render_from p.
+  Proof.
+    induction p as [|c r IH]; [reflexivity|]. destruct r as [|c' r']; [reflexivity|].
+    change (join_slash (c :: c' :: r')) with (c ++ [slash] ++ join_slash (c' :: r')).
+    change (render_from (c :: c' :: r')) with (c ++ [47] ++ render_from (c' :: r')).
+    rewrite IH. reflexivity.
+  Qed.
+
+  Lemma wf_get_strip : get_strip req = render p0 ++ [slash].
+  Proof.
+    unfold get_strip.
+    assert (E1 : list_eqb req [slash] = false).
+    { destruct (list_eqb req [slash]) eqn:E; [|reflexivity]. apply list_eqb_eq in E. unfold req in E.
+      inversion E as [E']. apply app_eq_nil in E'. destruct E'; discriminate. }
+    rewrite E1.
+    assert (E2 : has_suffix_slash req = true).
+    { unfold has_suffix_slash, req. change (slash :: render_from p0 ++ [slash]) with ((slash :: render_from p0) ++ [slash]).
+      rewrite rev_app_distr. cbn. reflexivity. }
+    rewrite E2, wf_path_clean. rewrite Z.eqb_refl.
+    unfold render. destruct p0; [congruence|reflexivity].
+  Qed.
+
+  Lemma wf_walk_root : walk_root req = render_from p0.
+  Proof.
+    unfold walk_root. unfold req at 1. rewrite Z.eqb_refl.
+    unfold path_clean. change (dot =? slash) with false. cbv zeta.
+    change (split_slash (dot :: req) []) with (split_slash req [dot]).
+    unfold req. cbn [split_slash]. rewrite Z.eqb_refl. cbn [rev app].
+    destruct (good_split p0 Hgood) as [Hns Hv]. rewrite split_render_slash by assumption.
+    cbn [clean_comps list_eqb]. change (dot =? dot) with true. cbn [andb orb].
+    rewrite clean_good by exact Hv. cbn [clean_comps list_eqb orb]. rewrite app_nil_r, rev_involutive.
+    rewrite join_is_render.
+    pose proof (render_from_nonempty p0 Hne Hv) as Hnn.
+    destruct (render_from p0); [congruence|reflexivity].
+  Qed.
+
+  Lemma wf_comps : comps_of (walk_root req) = p0.
+  Proof.
+    rewrite wf_walk_root. unfold comps_of. rewrite render_from_not_dot by assumption.
+    destruct (good_split p0 Hgood) as [Hns _]. now apply split_render.
+  Qed.
+
+  Lemma wf_valid : valid_path (walk_root req) = true.
+  Proof.
+    rewrite wf_walk_root. unfold valid_path. rewrite render_from_not_dot by assumption. cbn [orb].
+    destruct (good_split p0 Hgood) as [Hns Hv]. rewrite split_render by assumption.
+    apply forallb_forall. intros c Hc. rewrite Forall_forall in Hv. now apply Hv.
+  Qed.
+
+  (** The daemon asked for "/c1/.../ck/": every object under that directory
+      is listed under its path relative to the directory. *)
+  Theorem directory_contents_named_relative t sub rel node :
+    lookup t p0 = Some sub -> lookup sub rel = Some node ->
+    In (render rel) (serve_names t req).
+  Proof.
+    intros L Lr. unfold serve_names. rewrite wf_get_strip.
+    rewrite <- (wire_name_contents p0 rel Hne).
+    apply in_map.
+    pose proof (serve_complete t req sub rel node wf_valid) as Hc. rewrite wf_comps in Hc.
+    exact (Hc L Lr).
+  Qed.
+End WellFormedRequest.
+
+Lemma rev_render_head : forall p, p <> [] -> Forall (fun c => good_comp c = true) p ->
+  exists x l, rev (render_from p) = x :: l /\ (x =? slash) = false.
+Proof.
+  induction p as [|c r IH]; intros Hne Hall; [congruence|].
+  inversion Hall as [|? ? Hc Hr]; subst.
+  destruct r as [|c' r'].
+  - cbn [render_from]. unfold good_comp in Hc. apply andb_true_iff in Hc. destruct Hc as [Hn Hv].
+    destruct (rev c) as [|x l] eqn:E.
+    + apply (f_equal (@rev Z)) in E. rewrite rev_involutive in E. subst c. cbn in Hv. discriminate.
+    + exists x, l. split; [reflexivity|].
+      assert (Hin : In x c) by (apply in_rev; rewrite E; now left).
+      unfold noslash in Hn. rewrite forallb_forall in Hn. specialize (Hn x Hin). now apply negb_true_iff in Hn.
+  - change (render_from (c :: c' :: r')) with (c ++ [47] ++ render_from (c' :: r')).
+    rewrite !rev_app_distr.
+    destruct (IH ltac:(discriminate) Hr) as (x & l & E & Hx). rewrite E.
+    exists x, (l ++ rev [47] ++ rev c). split; [|exact Hx]. rewrite <- app_assoc. reflexivity.
+Qed.
+
+Section WellFormedRequestNoSlash.
+  Variable p0 : path.
+  Hypothesis Hne : p0 <> [].
+  Hypothesis Hgood : Forall (fun c => good_comp c = true) p0.
+  Let req := slash :: render_from p0.
+
+  Lemma wfn_get_strip : get_strip req = [].
+  Proof.
+    unfold get_strip.
+    destruct (good_split p0 Hgood) as [_ Hv]. pose proof (render_from_nonempty p0 Hne Hv) as Hnn.
+    assert (E1 : list_eqb req [slash] = false).
+    { destruct (list_eqb req [slash]) eqn:E; [|reflexivity]. apply list_eqb_eq in E. unfold req in E.
+      inversion E. congruence. }
+    rewrite E1.
+    assert (E2 : has_suffix_slash req = false).
+    { unfold has_suffix_slash, req. cbn [rev].
+      destruct (rev_render_head p0 Hne Hgood) as (x & l & E & Hx). rewrite E. cbn [app]. exact Hx. }
+    now rewrite E2.
+  Qed.
+
+  Lemma wfn_walk_root : walk_root req = render_from p0.
+  Proof.
+    unfold walk_root. unfold req at 1. rewrite Z.eqb_refl.
+    unfold path_clean. change (dot =? slash) with false. cbv zeta.
+    change (split_slash (dot :: req) []) with (split_slash req [dot]).
+    unfold req. cbn [split_slash]. rewrite Z.eqb_refl. cbn [rev app].
+    destruct (good_split p0 Hgood) as [Hns Hv]. rewrite split_render by assumption.
+    cbn [clean_comps list_eqb]. change (dot =? dot) with true. cbn [andb orb].
+    pose proof (clean_good false p0 [] [] Hv) as Hcg. rewrite !app_nil_r in Hcg. cbn [clean_comps] in Hcg.
+    rewrite rev_involutive in Hcg. rewrite Hcg.
+    rewrite join_is_render.
+    pose proof (render_from_nonempty p0 Hne Hv) as Hnn.
+    destruct (render_from p0); [congruence|reflexivity].
+  Qed.
+
+  (** The daemon asked for "/c1/.../ck" (no trailing slash): the objects are
+      listed under their module-relative paths.  For k = 1 that is the
+      directory's own name followed by the relative path, as rsync does; for
+      k > 1 rsync would name them by ck alone (known finding). *)
+  Theorem path_named_module_relative t sub rel node :
+    lookup t p0 = Some sub -> lookup sub rel = Some node ->
+    In (render (p0 ++ rel)) (serve_names t req).
+  Proof.
+    intros L Lr. unfold serve_names. rewrite wfn_get_strip. cbn [wire_name].
+    apply in_map.
+    assert (Hc : comps_of (walk_root req) = p0).
+    { rewrite wfn_walk_root. unfold comps_of. rewrite render_from_not_dot by assumption.
+      destruct (good_split p0 Hgood) as [Hns _]. now apply split_render. }
+    assert (Hv : valid_path (walk_root req) = true).
+    { rewrite wfn_walk_root. unfold valid_path. rewrite render_from_not_dot by assumption. cbn [orb].
+      destruct (good_split p0 Hgood) as [Hns Hv]. rewrite split_render by assumption.
+      apply forallb_forall. intros c Hc'. rewrite Forall_forall in Hv. now apply Hv. }
+    pose proof (serve_complete t req sub rel node Hv) as Hs. rewrite Hc in Hs. exact (Hs L Lr).
+  Qed.
+End WellFormedRequestNoSlash.
